@@ -312,7 +312,9 @@ def run(chk: Check) -> None:
             ok = names == want_names
             if ok and exp is None and ma is not None:
                 got = whttp.parse_date(dict(p.split("=", 1) for p in pieces)["Expires"])
-                ok = got is not None and abs(got.timestamp() - (t0 + secs)) <= 3
+                t1 = _dt.datetime.now(tz=_dt.timezone.utc).timestamp()
+                # bracketed by the clock before and after the call (whole seconds in the header): independent of load
+                ok = got is not None and t0 + secs - 1 <= got.timestamp() <= t1 + secs + 1
             if ok and ma is not None:
                 ok = dict(p.split("=", 1) for p in pieces)["Max-Age"] == str(secs)
             if not ok:
